@@ -63,6 +63,11 @@ type c08RunVerdictParams struct {
 	Conc   int    `json:"conc"`
 	// Teardown: behaviour of a scenario-level cleanup (0 = passes); a failing one fails the run
 	Teardown int `json:"teardown,omitempty"`
+	// SetupFault: behaviour that makes the setup fail (0 = passes); CancelInSetup: the run is cancelled from inside setup first
+	SetupFault    int  `json:"setup_fault,omitempty"`
+	CancelInSetup bool `json:"cancel_in_setup,omitempty"`
+	// SetupMark: the first body reports a non-fatal error through the handle captured in setup (fails nothing)
+	SetupMark bool `json:"setup_mark,omitempty"`
 }
 
 // c08RunVerdict: the verdict of a real run - also one that ends through the completion timeout with an
@@ -77,12 +82,21 @@ func c08RunVerdict(c *core.Case, o *core.Outcome) {
 	defer close(gate)
 	var started, failedDone, passedDone atomic.Int64
 	total := p.Fail + 3
-	scenario := func(t *f1testing.T) f1testing.RunFn {
+	scenario := func(setupT *f1testing.T) f1testing.RunFn {
 		if p.Teardown != engine.BPass {
-			t.Cleanup(func() { engine.Behave(t, p.Teardown) })
+			setupT.Cleanup(func() { engine.Behave(setupT, p.Teardown) })
+		}
+		if p.CancelInSetup {
+			cancel()
+		}
+		if p.SetupFault != engine.BPass {
+			engine.Behave(setupT, p.SetupFault)
 		}
 		return func(t *f1testing.T) {
 			n := int(started.Add(1))
+			if p.SetupMark && n == 1 {
+				setupT.Errorf("reported through the handle captured in setup")
+			}
 			switch {
 			case n <= p.Fail:
 				t.Fail()
@@ -123,6 +137,15 @@ func c08RunVerdict(c *core.Case, o *core.Outcome) {
 		return
 	}
 	desc := fmt.Sprintf("%+v", p)
+	if p.SetupFault != engine.BPass {
+		if r.Result == nil || !r.Result.Failed() || r.Result.Error() == nil || started.Load() != 0 {
+			o.Violate("runverdict-setupfail:"+desc, "setup failed (%s, cancelled from inside setup first: %v): Failed()=%v error=%v, %d iterations ran; expected a failed run with an error and no iteration (%s)", engine.BehaviourNames[p.SetupFault], p.CancelInSetup, r.Result != nil && r.Result.Failed(), r.Result.Error(), started.Load(), desc)
+			return
+		}
+		o.AddObs("evaluations", 1)
+		o.Sig("runverdict:setupfault:cancel=%v", p.CancelInSetup)
+		return
+	}
 	if int(failedDone.Load()) != p.Fail {
 		o.Inconc("only %d of %d failing iterations ran (%s)", failedDone.Load(), p.Fail, desc)
 		return
@@ -306,7 +329,13 @@ func init() {
 			for k := 0; k < nrv; k++ {
 				p := c08RunVerdictParams{Mode: pick(r, "users", "constant", "custom"), Ending: pick(r, "duration", "limit", "cancel"), Fail: r.IntN(4), Hang: k%2 == 0,
 					MaxF: pick(r, 0, 0, 1, 2), MaxR: pick(r, 0, 0, 30, 60), Ignore: r.IntN(2) == 0, Conc: pick(r, 2, 4)}
+				if k%5 == 4 {
+					// a setup that fails - also when the run is cancelled from inside it first
+					p.SetupFault = pick(r, engine.BFail, engine.BFailNow, engine.BErrorf, engine.BPanicString)
+					p.CancelInSetup = (k/5)%2 == 0
+				}
 				if k%3 == 2 {
+					p.SetupMark = r.IntN(2) == 0
 					// an otherwise tolerated (or clean) run whose scenario-level cleanup fails
 					p.Teardown = pick(r, engine.BFail, engine.BFailNow, engine.BErrorf, engine.BPanicString, engine.BRequire)
 					if r.IntN(2) == 0 {
